@@ -49,13 +49,14 @@ TEXT.update({
         level_text=('Proof, unbounded: the timer state always equals the mapper\'s last repeat request still in force (set by a Repeating result, cleared by Disabled, tablet events and a time-out in tablet mode; '
                     'NoChange leaves it); the poll time-out is exactly due-time minus a clock reading of this iteration (at least 1 ms), None iff no timer; a new timer is due delay_ms after a clock reading '
                     'taken at the firing; each tick adds exactly interval_ms to the due time (no drift); the payload of a tick equals chord(keys, held) = presses of the keys not already held in listed order, '
-                    'releases in reverse, and apply(held, chord) == Some(held) (lemma by induction); chords are the only sends besides mapper outputs (C10 invariant); the fold of everything written equals the mapper\'s record.'),
+                    'releases in reverse, and apply(held, chord) == Some(held) (lemma by induction); chords are the only sends besides mapper outputs (C10 invariant); the fold of everything written equals the mapper\'s record. '
+                    'The loop is verified against the contract of Mapper::step; this check also runs the mapper unit, and a failed obligation there that carries step\'s repeat request (C09) makes C11 conditional (witness or UNDECIDED).'),
         design_ref='6.11', level_note=LOOP_NOTE + ' "waits at most delay_ms" is proved as "time-out == due - now" and needs the monotonic clock to be read as a bound; "once per interval" is a statement about due times, not about the scheduler\'s punctuality.'),
     'C12': dict(
         technique='deductive verification (Verus): typestate precondition on Driver::send + loop invariant in_tablet_mode == switch state, real loop text',
         level_text=('Proof, unbounded: send requires that the switch is off or that the previous driver call delivered the switch event (so the only batch written while it is on is the release batch directly after On); '
                     'at On/Off release_all leaves nothing pressed and nothing held and the timer is stopped; keyboard events read while the switch is on are not stepped; later releases of keys the mapper does not consider '
-                    'held are ignored with no output (C09 clause of Mapper::step).'),
+                    'held are ignored with no output (C09 clause of Mapper::step). release_all\'s postcondition (nothing considered pressed, nothing held, only releases) is proved in the mapper unit, which this check runs as well.'),
         design_ref='6.12', level_note=LOOP_NOTE + ' "resumes as from a fresh start" is as strong as C06: nothing pressed, nothing held; equality of all later answers with a new mapper is a two-run property and not claimed.'),
     'C20': dict(
         technique='deductive verification (Verus): typestate `failed` on the Driver trait (every call requires !failed), real loop text',
